@@ -45,8 +45,8 @@ func c16SelfGroups(thorough bool) []c16Group {
 		gs = append(gs, mk(c16Shape{Arch: "llama", Blocks: 3, Profile: "growing", Output: "small"}, c16OvSml, 2, -1)...)
 		gs = append(gs, mk(c16Shape{Arch: "llama", Blocks: 3, Profile: "hole", Output: "tied"}, 0, 2, 2)...)
 		gs = append(gs, mk(c16Shape{Arch: "llama", Blocks: 3, Profile: "uniform", Output: "small", Vision: true}, 0, 2, -1)...)
-		gs = append(gs, mk(c16Shape{Arch: "llama", Blocks: 2, Profile: "uniform", Output: "small"}, 0, 3, -1)...)
-		gs = append(gs, mk(c16Shape{Arch: "llama", Blocks: 2, Profile: "growing", Output: "none", Vision: true}, 0, 3, 2)...)
+		gs = append(gs, mk(c16Shape{Arch: "llama", Blocks: 2, Profile: "uniform", Output: "none"}, 0, 3, -1)...)
+		gs = append(gs, mk(c16Shape{Arch: "llama", Blocks: 2, Profile: "growing", Output: "none"}, 0, 3, 1)...)
 	}
 	return gs
 }
@@ -99,7 +99,12 @@ func c16SelfCheck(g *c16Group, sub *evid.Run) {
 	free := make([]uint64, n)
 	var sweeps, evals, changes, missed int64
 	var firstMiss string
+	expired := false
 	c16Product(others, free, func() {
+		if expired || sub.Expired() {
+			expired = true
+			return
+		}
 		sweeps++
 		prev := ""
 		for v := uint64(0); v <= top; v++ {
@@ -131,6 +136,9 @@ func c16SelfCheck(g *c16Group, sub *evid.Run) {
 	sub.Add("selfcheck_sweep_evaluations", evals)
 	sub.Add("selfcheck_result_change_points", changes)
 	sub.Add("selfcheck_change_points_not_bracketed", missed)
+	if expired {
+		sub.NotExhaustive(fmt.Sprintf("time budget reached inside boundary self-check %+v gpus=%d axis=%d", g.Shape, n, axis))
+	}
 	if missed > 0 {
 		sub.NotExhaustive(fmt.Sprintf("boundary self-check: %d of %d result changes of the real estimator along a swept FreeMemory axis are not bracketed by enumerated values (first: %s)", missed, changes, firstMiss))
 	}
